@@ -176,3 +176,79 @@ Proof.
   - vm_compute. repeat constructor; simpl; intuition discriminate.
   - vm_compute. repeat split; reflexivity.
 Qed.
+
+Lemma alg_present rk extra strict h :
+  ~ In alg_name (reg_names extra) ->
+  header_ok (mk_registry (default_reg rk) extra) strict h = true ->
+  exists s, dget h alg_name = Some (PStr s).
+Proof. intros N H. exact (reg_has_str_present _ _ _ _ (mk_has_alg rk extra N) H). Qed.
+
+Lemma enc_present extra strict h :
+  ~ In enc_name (reg_names extra) ->
+  header_ok (mk_registry jwe_header_registry extra) strict h = true ->
+  exists s, dget h enc_name = Some (PStr s).
+Proof.
+  intros N H.
+  exact (reg_has_str_present _ _ _ _
+           (mk_registry_has jwe_header_registry extra enc_name is_VStr true jwe_default_has_enc N) H).
+Qed.
+
+Lemma b64_is_bool extra strict h v :
+  ~ In b64_name (reg_names extra) ->
+  header_ok7797 (mk_registry jws7797_default_header_registry extra) strict h = true ->
+  dget h b64_name = Some v ->
+  (exists b, v = PBool b) /\ exists l, dget h crit_name = Some (PList l) /\ In (PStr b64_name) l.
+Proof.
+  intros N H G. unfold header_ok7797 in H. apply andb_true_iff in H. destruct H as [H B].
+  split.
+  - exact (reg_has_bool_typed _ _ _ _ _
+             (mk_registry_has jws7797_default_header_registry extra b64_name is_VBool false
+                jws7797_default_has_b64 N) H G).
+  - apply b64_ok_iff in B. apply B. eauto.
+Qed.
+
+Lemma reg_set_nodup r p : NoDup (reg_names r) -> NoDup (reg_names (reg_set r p)).
+Proof.
+  induction r as [|q r IH]; simpl; intro H.
+  - constructor; [intros [] | constructor].
+  - inversion H as [|x l Hn Hd]; subst.
+    destruct (str_eqb (pname q) (pname p)) eqn:E; simpl.
+    + apply str_eqb_eq in E. constructor; [rewrite <- E; exact Hn | exact Hd].
+    + constructor; [|exact (IH Hd)].
+      intro X. apply reg_set_names in X. destruct X as [X|X]; [contradiction|].
+      rewrite X, str_eqb_refl in E. discriminate.
+Qed.
+
+Lemma mk_registry_nodup default extra : NoDup (reg_names (mk_registry default extra)).
+Proof.
+  unfold mk_registry, reg_update.
+  assert (G : forall e r, NoDup (reg_names r) -> NoDup (reg_names (fold_left reg_set e r))).
+  { induction e as [|p e IH]; simpl; intros r H; [exact H|]. apply IH. apply reg_set_nodup. exact H. }
+  apply G. apply G. constructor.
+Qed.
+
+(* a caller-registered parameter (whose name is not already bound in the
+   header) can be added, well-typed, to any accepted header *)
+Lemma caller_accepted default extra strict h p v :
+  In p extra -> NoDup (reg_names extra) ->
+  pname p <> crit_name ->
+  header_ok (mk_registry default extra) strict h = true ->
+  dmem h (pname p) = false -> json_type_ok (hp_kind p) v = true ->
+  header_ok (mk_registry default extra) strict (h ++ [(pname p, v)])%list = true.
+Proof.
+  intros Hp ND NC H M T.
+  pose proof (mk_registry_nodup default extra) as NDm.
+  pose proof (reg_update_extra extra (reg_update [] default) p ND Hp) as I.
+  apply header_ok_add; auto.
+  - intros q Hq E.
+    assert (q = p).
+    { clear -NDm Hq I E. unfold mk_registry in *.
+      induction (reg_update (reg_update [] default) extra) as [|x r IH]; [contradiction|].
+      simpl in NDm. inversion NDm as [|y l Hn Hd]; subst.
+      destruct Hq as [Hq|Hq]; destruct I as [I|I]; subst; auto.
+      - exfalso. apply Hn. rewrite E. unfold reg_names. apply in_map. exact I.
+      - exfalso. apply Hn. rewrite <- E. unfold reg_names. apply in_map. exact Hq. }
+    subst q. exact T.
+  - exists p. split; [exact I | reflexivity].
+Qed.
+
